@@ -98,6 +98,36 @@ def run_case(case):
                                     "replay": {"case": case}})
         res["evals"] = n
         return res
+    if kind == "intrargs":
+        # every F2003 intrinsic (generic and specific) with every admissible number of
+        # arguments (min, min+1, max): the F2008 parser must accept what the F2003 parser
+        # accepts and print the same (exhaustive over the live F2003 table)
+        real.get_parser("f2003", force=True)
+        I = real.F03.Intrinsic_Name
+        table = dict(I.generic_function_names)
+        for sp, gname in I.specific_function_names.items():
+            table.setdefault(sp, table.get(gname, {"min": 1, "max": 1}))
+        names = sorted(table)[case["lo"]:case["hi"]]
+        res["keys"] = []
+        for nm in names:
+            lo, hi = table[nm]["min"], table[nm]["max"]
+            counts = sorted(set(x for x in (lo, lo + 1, hi) if x is not None and lo <= x <= (hi if hi is not None else lo + 2) and x <= 8))
+            for n_ in counts:
+                args = ", ".join("a%d" % k for k in range(1, n_ + 1))
+                src = "program p\n  r = %s(%s)\nend program p\n" % (nm.lower(), args)
+                o3 = real.try_parse(src, std="f2003", free=True)
+                if o3.kind != "tree":
+                    res["counts"]["intrargs-f2003-rejects"] = res["counts"].get("intrargs-f2003-rejects", 0) + 1
+                    continue
+                o8 = real.try_parse(src, std="f2008", free=True)
+                res["keys"].append("%s/%d" % (nm, n_))
+                rp = {"case": case, "source": src}
+                if o8.kind != "tree":
+                    res["findings"].append({"signature": "f2008-rejects-f2003-program:intrinsic-args", "what": "%s with %d argument(s): accepted by the F2003 parser, rejected by the F2008 parser: %s" % (nm, n_, str(o8.exc)[:160]), "replay": rp})
+                elif fold(str(o3.tree)) != fold(str(o8.tree)):
+                    res["findings"].append({"signature": "f2008-text-differs:intrinsic-args", "what": "%s/%d printed %r by f2003 and %r by f2008" % (nm, n_, str(o3.tree).split("\n")[1], str(o8.tree).split("\n")[1]), "replay": rp})
+        res["evals"] = len(res["keys"])
+        return res
     if kind == "probe":
         name = case["probe"]
         src = F08_PROBES[name]
@@ -166,6 +196,7 @@ def cases(tier, seed):
     n = util.tier_n(tier, 200, 2000)
     out = [{"kind": "probe", "probe": k} for k in F08_PROBES]
     out.append({"kind": "registry", "seed": seed, "n": util.tier_n(tier, 10, 60), "_timeout": 900})
+    out += [{"kind": "intrargs", "lo": lo, "hi": lo + 30, "_timeout": 600} for lo in range(0, 180, 30)]
     for i, s in enumerate(util.seeds(seed, n, 17)):
         out.append({"kind": "f03", "seed": s, "intr": i % 3 == 0})
     for s in util.seeds(seed, n // 3, 171):
